@@ -115,15 +115,24 @@ theorem succ_next {it : Items} {k i : Nat} {v : Chunk} (h : lookup it ⟨k, i + 
     simp only at *
     omega
 
-/-- `locate` finds exactly the stored chunks (given that something is selected, as after any
-successful `Find`) and does not change the collection -/
-theorem locate_spec (t : Tree) (sdk : SKey) (hc : t.cur.isSome) :
+/-- The block WITHOUT the fallback (`writer.Write` in update mode; the reader before fix 7fc80460):
+`locate` finds exactly the stored chunks and does not change the collection, WHEREVER the shared
+cursor rests — given that something is selected (as after any successful `Find`) or the entry's key
+is not the zero value (with nothing selected `GetCurrentKey` answers the zero key, which the fast
+path takes for chunk 0 of entry 0) -/
+theorem locate_spec (t : Tree) (sdk : SKey) (hc : t.cur.isSome ∨ sdk.key ≠ 0) :
     (locate t sdk).1.items = t.items ∧
     (∀ v, lookup t.items sdk = some v → (locate t sdk).2 = true ∧ (locate t sdk).1.cur = some sdk) ∧
     (lookup t.items sdk = none → (locate t sdk).2 = false) := by
   obtain ⟨items, cur⟩ := t
   cases cur with
-  | none => simp at hc
+  | none =>
+    have hk : sdk.key ≠ 0 := by simpa using hc
+    have hck : ¬ (⟨0, 0 + 1⟩ : SKey) = sdk := by
+      intro h; apply hk; rw [← h]
+    cases hl : lookup items sdk with
+    | some v => simp [locate, Tree.currentKey, hck, Tree.find, hl]
+    | none => simp [locate, Tree.currentKey, hck, Tree.find, hl]
   | some c =>
     by_cases hck : (⟨c.key, c.idx + 1⟩ : SKey) = sdk
     · subst hck
@@ -146,6 +155,72 @@ theorem locate_spec (t : Tree) (sdk : SKey) (hc : t.cur.isSome) :
       | some v => simp [locate, Tree.currentKey, hck, Tree.find, hl]
       | none => simp [locate, Tree.currentKey, hck, Tree.find, hl]
 
+theorem find_spec (t : Tree) (k : SKey) :
+    (t.find k).1.items = t.items ∧
+    (∀ v, lookup t.items k = some v → (t.find k).2 = true ∧ (t.find k).1.cur = some k) ∧
+    (lookup t.items k = none → (t.find k).2 = false) := by
+  unfold Tree.find
+  cases hl : lookup t.items k <;> simp
+
+/-- **The reader's positioning block as it stands (fix 7fc80460)** finds exactly the stored chunks and
+does not change the collection, wherever the shared cursor rests and also when NOTHING is selected
+(no hypothesis on the cursor, none on the key: a `Next` shortcut that was taken for the wrong reason —
+the current key only read as the zero key — misses and falls back to `Find`). -/
+theorem locateR_spec (t : Tree) (sdk : SKey) :
+    (locateR t sdk).1.items = t.items ∧
+    (∀ v, lookup t.items sdk = some v → (locateR t sdk).2 = true ∧ (locateR t sdk).1.cur = some sdk) ∧
+    (lookup t.items sdk = none → (locateR t sdk).2 = false) := by
+  unfold locateR
+  simp only
+  by_cases hck : (⟨t.currentKey.key, t.currentKey.idx + 1⟩ : SKey) = sdk
+  · simp only [hck, ↓reduceIte]
+    have hn : t.next.1.items = t.items := by
+      unfold Tree.next
+      cases t.cur with
+      | none => rfl
+      | some c => simp only; cases succ t.items c <;> rfl
+    rcases hnx : t.next with ⟨t', f⟩
+    rw [hnx] at hn
+    simp only at hn ⊢
+    by_cases hmiss : ¬ f = true ∨ t'.currentKey ≠ sdk
+    · simp only [hmiss, ↓reduceIte]
+      have := find_spec t' sdk
+      rw [hn] at this
+      exact this
+    · simp only [hmiss, ↓reduceIte]
+      have hf : f = true := by
+        cases f with
+        | true => rfl
+        | false => exact absurd (Or.inl (by simp)) hmiss
+      have hk : t'.currentKey = sdk := by
+        by_cases h : t'.currentKey = sdk
+        · exact h
+        · exact absurd (Or.inr h) hmiss
+      subst hf
+      -- `Next` succeeded: it moved to a stored key, and that key is `sdk`
+      have hstored : t'.cur = some sdk ∧ ∃ v, lookup t.items sdk = some v := by
+        unfold Tree.next at hnx
+        cases hc : t.cur with
+        | none => rw [hc] at hnx; simp at hnx
+        | some c =>
+          rw [hc] at hnx
+          simp only at hnx
+          cases hs : succ t.items c with
+          | none => rw [hs] at hnx; simp at hnx
+          | some m =>
+            rw [hs] at hnx
+            simp only [Prod.mk.injEq, and_true] at hnx
+            subst hnx
+            simp only [Tree.currentKey, Option.getD_some] at hk
+            subst hk
+            obtain ⟨_, h2, _⟩ := succ_some hs
+            exact ⟨rfl, lookup_isSome_of_mem h2⟩
+      obtain ⟨hcur, v0, hv0⟩ := hstored
+      refine ⟨hn, fun v _ => ⟨rfl, hcur⟩, fun hnone => ?_⟩
+      rw [hnone] at hv0; cases hv0
+  · simp only [hck, ↓reduceIte]
+    exact find_spec t sdk
+
 /-! ## the reader -/
 
 /-- chunks `cs` of entry `k` are stored at indices `i, i+1, …` and index `i + cs.length` is free -/
@@ -156,7 +231,7 @@ def Holds (it : Items) (k : Nat) : Nat → List Chunk → Prop
 /-- reader state invariant: `pend` are exactly the bytes still to be delivered, `mc` the number of
 chunks not yet fetched -/
 def Pending (k : Nat) (t : Tree) (r : Reader) (pend : List Nat) (mc : Nat) : Prop :=
-  r.key = k ∧ t.cur.isSome ∧ ∃ cs : List Chunk, mc = cs.length ∧
+  r.key = k ∧ ∃ cs : List Chunk, mc = cs.length ∧
     ((r.readChunk = none ∧ Holds t.items k r.chunkIndex cs ∧ pend = cs.flatten) ∨
      (∃ rc, r.readChunk = some rc ∧ r.readCount < rc.length ∧ Holds t.items k (r.chunkIndex + 1) cs ∧
         pend = rc.drop r.readCount ++ cs.flatten))
@@ -167,36 +242,35 @@ theorem read_step (k : Nat) (t : Tree) (r : Reader) (pend : List Nat) (mc n : Na
     | (_, _, .eof) => pend = []
     | (t', r', .data out) => ∃ pend' mc', pend = out ++ pend' ∧ Pending k t' r' pend' mc' ∧
         pend'.length + mc' < pend.length + mc := by
-  obtain ⟨hk, hc, cs, hmc, hcase⟩ := hp
+  obtain ⟨hk, cs, hmc, hcase⟩ := hp
   rcases hcase with ⟨hrc, hh, hpend⟩ | ⟨rc, hrc, hlt, hh, hpend⟩
   · -- nothing buffered: fetch chunk `chunkIndex`
-    unfold Reader.read
+    unfold Reader.read Reader.readWith
     rw [hrc]
     simp only
-    obtain ⟨hi, hfound, hnone⟩ := locate_spec t ⟨r.key, r.chunkIndex⟩ hc
+    obtain ⟨hi, hfound, hnone⟩ := locateR_spec t ⟨r.key, r.chunkIndex⟩
     cases cs with
     | nil =>
       have : lookup t.items ⟨r.key, r.chunkIndex⟩ = none := by rw [hk]; exact hh
       have hf := hnone this
-      rw [show locate t ⟨r.key, r.chunkIndex⟩ = ((locate t ⟨r.key, r.chunkIndex⟩).1, (locate t ⟨r.key, r.chunkIndex⟩).2) from rfl]
+      rw [show locateR t ⟨r.key, r.chunkIndex⟩ = ((locateR t ⟨r.key, r.chunkIndex⟩).1, (locateR t ⟨r.key, r.chunkIndex⟩).2) from rfl]
       simp only [hf]
       simpa using hpend
     | cons c cs' =>
       obtain ⟨hl, hrest⟩ := hh
       have hl' : lookup t.items ⟨r.key, r.chunkIndex⟩ = some c := by rw [hk]; exact hl
       obtain ⟨hf, hcur⟩ := hfound c hl'
-      rw [show locate t ⟨r.key, r.chunkIndex⟩ = ((locate t ⟨r.key, r.chunkIndex⟩).1, (locate t ⟨r.key, r.chunkIndex⟩).2) from rfl]
+      rw [show locateR t ⟨r.key, r.chunkIndex⟩ = ((locateR t ⟨r.key, r.chunkIndex⟩).1, (locateR t ⟨r.key, r.chunkIndex⟩).2) from rfl]
       simp only [hf, ↓reduceIte]
-      have hval : (locate t ⟨r.key, r.chunkIndex⟩).1.currentValue = c := by
+      have hval : (locateR t ⟨r.key, r.chunkIndex⟩).1.currentValue = c := by
         unfold Tree.currentValue
         rw [hcur]; simp only; rw [hi, hl']; rfl
       rw [hval]
-      have hcs : (locate t ⟨r.key, r.chunkIndex⟩).1.cur.isSome := by rw [hcur]; rfl
       by_cases hpart : (c.take n).length < c.length
       · simp only [hpart, ↓reduceIte]
         have hlen : (c.take n).length = n := by
           rw [List.length_take] at hpart ⊢; omega
-        refine ⟨c.drop n ++ cs'.flatten, cs'.length, ?_, ⟨hk, hcs, cs', rfl, Or.inr ⟨c, rfl, ?_, ?_, ?_⟩⟩, ?_⟩
+        refine ⟨c.drop n ++ cs'.flatten, cs'.length, ?_, ⟨hk, cs', rfl, Or.inr ⟨c, rfl, ?_, ?_, ?_⟩⟩, ?_⟩
         · rw [hpend, List.flatten_cons, ← List.append_assoc, List.take_append_drop]
         · simpa using hpart
         · rw [hi]; exact hrest
@@ -208,14 +282,14 @@ theorem read_step (k : Nat) (t : Tree) (r : Reader) (pend : List Nat) (mc n : Na
         have hall : c.take n = c := by
           apply List.take_of_length_le
           rw [List.length_take] at hpart; omega
-        refine ⟨cs'.flatten, cs'.length, ?_, ⟨hk, hcs, cs', rfl, Or.inl ⟨by simp, ?_, rfl⟩⟩, ?_⟩
+        refine ⟨cs'.flatten, cs'.length, ?_, ⟨hk, cs', rfl, Or.inl ⟨by simp, ?_, rfl⟩⟩, ?_⟩
         · rw [hpend, hall, List.flatten_cons]
         · rw [hi]; exact hrest
         · rw [hpend, hmc]
           simp only [List.flatten_cons, List.length_append, List.length_cons]
           omega
   · -- a partially delivered chunk is buffered
-    unfold Reader.read
+    unfold Reader.read Reader.readWith
     rw [hrc]
     simp only
     have hdl : (rc.drop r.readCount).length = rc.length - r.readCount := List.length_drop
@@ -224,7 +298,7 @@ theorem read_step (k : Nat) (t : Tree) (r : Reader) (pend : List Nat) (mc n : Na
       have hall : (rc.drop r.readCount).take n = rc.drop r.readCount := by
         apply List.take_of_length_le
         rw [List.length_take] at hdr; omega
-      refine ⟨cs.flatten, cs.length, ?_, ⟨hk, hc, cs, rfl, Or.inl ⟨rfl, hh, rfl⟩⟩, ?_⟩
+      refine ⟨cs.flatten, cs.length, ?_, ⟨hk, cs, rfl, Or.inl ⟨rfl, hh, rfl⟩⟩, ?_⟩
       · rw [hpend, hall]
       · rw [hpend, hmc]
         simp only [List.length_append, hdl]
@@ -233,7 +307,7 @@ theorem read_step (k : Nat) (t : Tree) (r : Reader) (pend : List Nat) (mc n : Na
       have hlen : ((rc.drop r.readCount).take n).length = n := by
         rw [List.length_take] at hdr ⊢; omega
       refine ⟨rc.drop (r.readCount + n) ++ cs.flatten, cs.length, ?_,
-        ⟨hk, hc, cs, rfl, Or.inr ⟨rc, by simp, ?_, hh, ?_⟩⟩, ?_⟩
+        ⟨hk, cs, rfl, Or.inr ⟨rc, by simp, ?_, hh, ?_⟩⟩, ?_⟩
       · rw [hpend, ← List.append_assoc]
         congr 1
         rw [← List.drop_drop, List.take_append_drop]
@@ -278,18 +352,18 @@ theorem readAll_spec (k : Nat) : ∀ (bufs : List Nat) (t : Tree) (r : Reader) (
         simp only [List.length_cons] at hl
         omega
 
-/-- **C31_read_all.** For every stored chunk list, every start index, every cursor position that
-selects an item and every sequence of positive buffer sizes: the bytes delivered by successive
+/-- **C31_read_all.** For every stored chunk list, every start index, every state of the shared cursor (any
+position, or nothing selected) and every sequence of positive buffer sizes: the bytes delivered by successive
 `Read` calls are a prefix of the concatenated chunks; they are *all* of them as soon as EOF is
 returned; and EOF is returned within `bytes + chunks + 1` calls. (Repaired reader.) -/
 theorem C31_read_all (t : Tree) (k i : Nat) (chunks : List Chunk) (bufs : List Nat)
-    (hcur : t.cur.isSome) (hstored : Holds t.items k i chunks) (hpos : ∀ b ∈ bufs, 0 < b) :
+    (hstored : Holds t.items k i chunks) (hpos : ∀ b ∈ bufs, 0 < b) :
     ((readAll true t (Reader.new k i) bufs).2 = true → (readAll true t (Reader.new k i) bufs).1 = chunks.flatten) ∧
     (readAll true t (Reader.new k i) bufs).1 <+: chunks.flatten ∧
     (chunks.flatten.length + chunks.length < bufs.length →
       readAll true t (Reader.new k i) bufs = (chunks.flatten, true)) := by
   have hp : Pending k t (Reader.new k i) chunks.flatten chunks.length :=
-    ⟨rfl, hcur, chunks, rfl, Or.inl ⟨rfl, hstored, rfl⟩⟩
+    ⟨rfl, chunks, rfl, Or.inl ⟨rfl, hstored, rfl⟩⟩
   obtain ⟨h1, ⟨rest, h2⟩, h3⟩ := readAll_spec k bufs t _ _ _ hp hpos
   refine ⟨h1, ⟨rest, h2.symm⟩, ?_⟩
   intro hl
@@ -614,7 +688,7 @@ theorem C31_add_then_read_all (t : Tree) (k : Nat) (v : Chunk) (vs : List Chunk)
     simp [opOpen, findOne, Tree.find, hl, Tree.currentKey]
   rw [hopen]
   refine ⟨Reader.new k 0, rfl, ?_⟩
-  obtain ⟨a, _, c⟩ := C31_read_all { (writeAll t ⟨k, 0, true⟩ (v :: vs)).1 with cur := some ⟨k, 0⟩ } k 0 (v :: vs) bufs rfl h2 hpos
+  obtain ⟨a, _, c⟩ := C31_read_all { (writeAll t ⟨k, 0, true⟩ (v :: vs)).1 with cur := some ⟨k, 0⟩ } k 0 (v :: vs) bufs h2 hpos
   exact ⟨a, c⟩
 
 /-! ## update (statement only) -/
@@ -643,5 +717,416 @@ theorem C31_unrepaired_counterexample :
     let t : Tree := ⟨[(⟨1, 0⟩, [1, 2, 3]), (⟨1, 1⟩, [4, 5, 6])], some ⟨1, 0⟩⟩
     (readAll false t (Reader.new 1 0) [2, 2, 2, 2, 2, 2, 2, 2, 2, 2]).1 ≠ [1, 2, 3, 4, 5, 6] := by
   decide
+
+
+/-! ## several readers (and anything else) interleaved on the store's one cursor -/
+
+theorem find_items (t : Tree) (k : SKey) : (t.find k).1.items = t.items := by
+  unfold Tree.find; cases lookup t.items k <;> rfl
+
+theorem locateR_items (t : Tree) (sdk : SKey) : (locateR t sdk).1.items = t.items := (locateR_spec t sdk).1
+
+/-- `Read` never changes what is stored -/
+theorem read_items (t : Tree) (r : Reader) (n : Nat) : (Reader.read true t r n).1.items = t.items := by
+  unfold Reader.read Reader.readWith
+  cases r.readChunk with
+  | some rc => simp only; split <;> rfl
+  | none =>
+    simp only
+    have hl := locateR_items t ⟨r.key, r.chunkIndex⟩
+    rcases hloc : locateR t ⟨r.key, r.chunkIndex⟩ with ⟨t', f⟩
+    rw [hloc] at hl
+    simp only
+    split
+    · split <;> exact hl
+    · exact hl
+
+theorem holds_congr {it it' : Items} {k : Nat} (h : ∀ i, lookup it' ⟨k, i⟩ = lookup it ⟨k, i⟩) :
+    ∀ (cs : List Chunk) (i : Nat), Holds it k i cs → Holds it' k i cs := by
+  intro cs
+  induction cs with
+  | nil => intro i hh; unfold Holds at hh ⊢; rw [h]; exact hh
+  | cons c cs ih => intro i hh; unfold Holds at hh ⊢; rw [h]; exact ⟨hh.1, ih _ hh.2⟩
+
+/-- a reader's invariant depends on the store only through the chunks of its own entry: whatever else
+changes (other entries, the cursor — moved anywhere or deselected), it still holds -/
+theorem pending_congr {k : Nat} {t t' : Tree} {r : Reader} {pend : List Nat} {mc : Nat}
+    (h : ∀ i, lookup t'.items ⟨k, i⟩ = lookup t.items ⟨k, i⟩) (hp : Pending k t r pend mc) : Pending k t' r pend mc := by
+  obtain ⟨h1, cs, hmc, hcase⟩ := hp
+  refine ⟨h1, cs, hmc, ?_⟩
+  rcases hcase with ⟨a, b, c⟩ | ⟨rc, a, b, c, d⟩
+  · exact Or.inl ⟨a, holds_congr h _ _ b, c⟩
+  · exact Or.inr ⟨rc, a, b, holds_congr h _ _ c, d⟩
+
+/-- **The fast path is only an optimisation.** What `Read` returns, the reader's next state and what is
+stored afterwards do not depend on where the shared cursor rests: for two stores with the same content
+and ANY two cursor states (any position, or nothing selected; any entry key, the zero key included)
+the results agree. -/
+theorem read_cursor_irrelevant (t1 t2 : Tree) (r : Reader) (n : Nat) (hi : t1.items = t2.items) :
+    (Reader.read true t1 r n).2 = (Reader.read true t2 r n).2 ∧
+    (Reader.read true t1 r n).1.items = (Reader.read true t2 r n).1.items := by
+  refine ⟨?_, by rw [read_items, read_items, hi]⟩
+  unfold Reader.read Reader.readWith
+  cases r.readChunk with
+  | some rc => simp only; split <;> rfl
+  | none =>
+    simp only
+    obtain ⟨a1, b1, c1⟩ := locateR_spec t1 ⟨r.key, r.chunkIndex⟩
+    obtain ⟨a2, b2, c2⟩ := locateR_spec t2 ⟨r.key, r.chunkIndex⟩
+    rcases hl1 : locateR t1 ⟨r.key, r.chunkIndex⟩ with ⟨u1, f1⟩
+    rcases hl2 : locateR t2 ⟨r.key, r.chunkIndex⟩ with ⟨u2, f2⟩
+    rw [hl1] at a1 b1 c1
+    rw [hl2] at a2 b2 c2
+    simp only at a1 b1 c1 a2 b2 c2
+    cases hlk : lookup t1.items ⟨r.key, r.chunkIndex⟩ with
+    | none =>
+      have e1 := c1 hlk
+      have e2 := c2 (by rw [← hi]; exact hlk)
+      subst e1; subst e2
+      simp
+    | some v =>
+      obtain ⟨e1, g1⟩ := b1 v hlk
+      obtain ⟨e2, g2⟩ := b2 v (by rw [← hi]; exact hlk)
+      subst e1; subst e2
+      have v1 : u1.currentValue = v := by unfold Tree.currentValue; rw [g1]; simp only; rw [a1, hlk]; rfl
+      have v2 : u2.currentValue = v := by unfold Tree.currentValue; rw [g2]; simp only; rw [a2, ← hi, hlk]; rfl
+      simp only [↓reduceIte, v1, v2]
+      split <;> rfl
+
+/-- what the reader in slot `j` of a session is reading: the entry, the chunk it starts from, and the
+chunks stored from there on -/
+structure Spec where
+  key : Nat
+  start : Nat
+  chunks : List Chunk
+
+/-- an `env` step leaves the chunks of the entries that are being read as they are (it may do anything
+to other entries and to the cursor) -/
+def Preserves (keys : List Nat) (t t' : Tree) : Prop :=
+  ∀ k ∈ keys, ∀ i, lookup t'.items ⟨k, i⟩ = lookup t.items ⟨k, i⟩
+
+def EvOk (keys : List Nat) (s : Sess) : Ev → Prop
+  | .rd _ n => 0 < n
+  | .env t' => Preserves keys s.tree t'
+
+/-- the events are admissible: buffers are non-empty, `env` steps do not rewrite the entries being read -/
+def ValidEvs (keys : List Nat) : Sess → List Ev → Prop
+  | _, [] => True
+  | s, e :: es => EvOk keys s e ∧ ValidEvs keys (s.evWith locateR e) es
+
+def initSess (t : Tree) (specs : List Spec) (ws : List Writer) : Sess :=
+  ⟨t, specs.map fun sp => ⟨Reader.new sp.key sp.start, [], false⟩, ws⟩
+
+def SlotInv (t : Tree) (sp : Spec) (sl : Slot) : Prop :=
+  ∃ pend mc, Pending sp.key t sl.r pend mc ∧ sl.got ++ pend = sp.chunks.flatten ∧ (sl.eof = true → pend = [])
+
+def SessInv (specs : List Spec) (s : Sess) : Prop :=
+  s.readers.length = specs.length ∧
+  ∀ (j : Nat) (sp : Spec) (sl : Slot), specs[j]? = some sp → s.readers[j]? = some sl → SlotInv s.tree sp sl
+
+theorem slotInv_congr {t t' : Tree} {sp : Spec} {sl : Slot}
+    (h : ∀ i, lookup t'.items ⟨sp.key, i⟩ = lookup t.items ⟨sp.key, i⟩) (hs : SlotInv t sp sl) : SlotInv t' sp sl := by
+  obtain ⟨pend, mc, hp, a, b⟩ := hs
+  exact ⟨pend, mc, pending_congr h hp, a, b⟩
+
+theorem ev_inv (specs : List Spec) (s : Sess) (e : Ev) (hinv : SessInv specs s)
+    (hv : EvOk (specs.map (·.key)) s e) : SessInv specs (s.evWith locateR e) := by
+  obtain ⟨hlen, hall⟩ := hinv
+  cases e with
+  | env t' =>
+    refine ⟨hlen, ?_⟩
+    intro j sp sl hsp hsl
+    have hmem : sp ∈ specs := List.mem_of_getElem? hsp
+    exact slotInv_congr (hv sp.key (List.mem_map.2 ⟨sp, hmem, rfl⟩)) (hall j sp sl hsp hsl)
+  | rd j n =>
+    have hn : 0 < n := hv
+    unfold Sess.evWith Sess.rdWith
+    simp only
+    cases hj : s.readers[j]? with
+    | none => exact ⟨hlen, hall⟩
+    | some sl =>
+      simp only
+      have hjlt : j < s.readers.length := by
+        rcases List.getElem?_eq_some_iff.1 hj with ⟨h, _⟩; exact h
+      have hspj : ∃ sp, specs[j]? = some sp := by
+        have : j < specs.length := by omega
+        exact ⟨specs[j], List.getElem?_eq_getElem this⟩
+      obtain ⟨sp, hsp⟩ := hspj
+      obtain ⟨pend, mc, hp, hgot, heof⟩ := hall j sp sl hsp hj
+      have hstep := read_step sp.key s.tree sl.r pend mc n hp hn
+      have hitems := read_items s.tree sl.r n
+      have hrw : Reader.readWith locateR true s.tree sl.r n = Reader.read true s.tree sl.r n := rfl
+      rw [hrw]
+      rcases hread : Reader.read true s.tree sl.r n with ⟨t', r', res⟩
+      rw [hread] at hstep hitems
+      simp only at hitems
+      -- the other slots keep their invariant: only the cursor moved
+      have hothers : ∀ (x : Slot) (j' : Nat) (sp' : Spec) (sl' : Slot), specs[j']? = some sp' → (s.readers.set j x)[j']? = some sl' → j ≠ j' →
+          SlotInv t' sp' sl' := by
+        intro x j' sp' sl' hsp' hsl' hne
+        rw [List.getElem?_set_ne hne] at hsl'
+        exact slotInv_congr (fun i => by rw [hitems]) (hall j' sp' sl' hsp' hsl')
+      cases res with
+      | eof =>
+        simp only at hstep ⊢
+        refine ⟨by simp only [List.length_set]; exact hlen, ?_⟩
+        intro j' sp' sl' hsp' hsl'
+        by_cases hjj : j = j'
+        · subst hjj
+          rw [List.getElem?_set_self hjlt] at hsl'
+          rw [hsp] at hsp'
+          cases hsp'; cases hsl'
+          -- `read` returned EOF: the reader itself is unchanged, nothing was pending
+          have hr' : r' = sl.r := by
+            have := hread
+            unfold Reader.read Reader.readWith at this
+            rcases hp with ⟨_, cs, _, hc⟩
+            cases hrc : sl.r.readChunk with
+            | some rc => rw [hrc] at this; simp only at this; split at this <;> cases this
+            | none =>
+              rw [hrc] at this; simp only at this
+              split at this
+              · split at this <;> cases this
+              · cases this; rfl
+          subst hr'
+          refine ⟨pend, mc, ?_, hgot, fun _ => hstep⟩
+          exact pending_congr (fun i => by rw [hitems]) hp
+        · exact hothers _ j' sp' sl' hsp' hsl' hjj
+      | data out =>
+        simp only at hstep ⊢
+        obtain ⟨pend', mc', hsplit, hp', _⟩ := hstep
+        refine ⟨by simp only [List.length_set]; exact hlen, ?_⟩
+        intro j' sp' sl' hsp' hsl'
+        by_cases hjj : j = j'
+        · subst hjj
+          rw [List.getElem?_set_self hjlt] at hsl'
+          rw [hsp] at hsp'
+          cases hsp'; cases hsl'
+          refine ⟨pend', mc', hp', ?_, ?_⟩
+          · simp only; rw [List.append_assoc, ← hsplit]; exact hgot
+          · intro he
+            have := heof he
+            rw [this] at hsplit
+            have : out ++ pend' = [] := hsplit.symm
+            simp only [List.append_eq_nil_iff] at this
+            exact this.2
+        · exact hothers _ j' sp' sl' hsp' hsl' hjj
+
+theorem run_inv (specs : List Spec) : ∀ (evs : List Ev) (s : Sess),
+    SessInv specs s → ValidEvs (specs.map (·.key)) s evs → SessInv specs (s.run evs) := by
+  intro evs
+  induction evs with
+  | nil => intro s h _; exact h
+  | cons e es ih =>
+    intro s h hv
+    obtain ⟨h1, h2⟩ := hv
+    exact ih _ (ev_inv specs s e h h1) h2
+
+/-- **C31_interleaved_readers.** Any number of readers are open on one store, reader `j` on entry
+`specs[j].key` (ANY key, the zero value included; several readers may read the same entry) from chunk
+`specs[j].start`, and their `Read` calls (any positive buffer sizes) are interleaved in ANY order with
+each other and with arbitrary other activity on the store that moves the shared cursor anywhere (or
+deselects it) and changes other entries in any way. Then at every moment every reader has delivered a
+prefix of its entry's concatenated chunks, and a reader that has reported EOF has delivered exactly all
+of them: no reader is truncated, repeats or receives another entry's bytes because of where somebody
+else left the cursor. -/
+theorem C31_interleaved_readers (t : Tree) (specs : List Spec) (ws : List Writer) (evs : List Ev)
+    (hst : ∀ sp ∈ specs, Holds t.items sp.key sp.start sp.chunks)
+    (hv : ValidEvs (specs.map (·.key)) (initSess t specs ws) evs) :
+    ((initSess t specs ws).run evs).readers.length = specs.length ∧
+    ∀ (j : Nat) (sp : Spec) (sl : Slot), specs[j]? = some sp → ((initSess t specs ws).run evs).readers[j]? = some sl →
+      sl.got <+: sp.chunks.flatten ∧ (sl.eof = true → sl.got = sp.chunks.flatten) := by
+  have h0 : SessInv specs (initSess t specs ws) := by
+    refine ⟨by simp [initSess], ?_⟩
+    intro j sp sl hsp hsl
+    simp only [initSess, List.getElem?_map, hsp, Option.map_some, Option.some.injEq] at hsl
+    subst hsl
+    have hmem := List.mem_of_getElem? hsp
+    exact ⟨sp.chunks.flatten, sp.chunks.length,
+      ⟨rfl, sp.chunks, rfl, Or.inl ⟨rfl, hst sp hmem, rfl⟩⟩, by simp, fun h => by cases h⟩
+  obtain ⟨hlen, hall⟩ := run_inv specs evs _ h0 hv
+  refine ⟨hlen, ?_⟩
+  intro j sp sl hsp hsl
+  obtain ⟨pend, mc, _, hgot, heof⟩ := hall j sp sl hsp hsl
+  refine ⟨⟨pend, hgot⟩, ?_⟩
+  intro he
+  rw [heof he] at hgot
+  simpa using hgot
+
+/-! ### … and every reader does reach end-of-stream -/
+
+/-- how many `Read` calls reader `j` makes in the history -/
+def rdCount (j : Nat) : List Ev → Nat
+  | [] => 0
+  | .rd j' _ :: es => (if j' = j then 1 else 0) + rdCount j es
+  | .env _ :: es => rdCount j es
+
+theorem ev_eof_mono (s : Sess) (e : Ev) (j : Nat) (sl : Slot) (hj : s.readers[j]? = some sl) (he : sl.eof = true) :
+    ∃ sl', (s.evWith locateR e).readers[j]? = some sl' ∧ sl'.eof = true := by
+  cases e with
+  | env t' => exact ⟨sl, hj, he⟩
+  | rd j' n =>
+    unfold Sess.evWith Sess.rdWith
+    simp only
+    cases hj' : s.readers[j']? with
+    | none => exact ⟨sl, hj, he⟩
+    | some sl0 =>
+      simp only
+      have hlt : j' < s.readers.length := by
+        rcases List.getElem?_eq_some_iff.1 hj' with ⟨h, _⟩; exact h
+      rcases Reader.readWith locateR true s.tree sl0.r n with ⟨t', r', res⟩
+      by_cases hjj : j' = j
+      · subst hjj
+        rw [hj] at hj'; cases hj'
+        cases res with
+        | eof => exact ⟨_, List.getElem?_set_self hlt, rfl⟩
+        | data out => exact ⟨_, List.getElem?_set_self hlt, he⟩
+      · cases res with
+        | eof => exact ⟨sl, by simp only [List.getElem?_set_ne hjj]; exact hj, he⟩
+        | data out => exact ⟨sl, by simp only [List.getElem?_set_ne hjj]; exact hj, he⟩
+
+theorem run_eof_mono : ∀ (evs : List Ev) (s : Sess) (j : Nat) (sl : Slot), s.readers[j]? = some sl → sl.eof = true →
+    ∃ sl', (s.run evs).readers[j]? = some sl' ∧ sl'.eof = true := by
+  intro evs
+  induction evs with
+  | nil => intro s j sl hj he; exact ⟨sl, hj, he⟩
+  | cons e es ih =>
+    intro s j sl hj he
+    obtain ⟨sl1, h1, h2⟩ := ev_eof_mono s e j sl hj he
+    exact ih _ j sl1 h1 h2
+
+theorem run_eof (specs : List Spec) (j : Nat) (sp : Spec) (hsp : specs[j]? = some sp) :
+    ∀ (evs : List Ev) (s : Sess) (sl : Slot) (pend : List Nat) (mc : Nat),
+    ValidEvs (specs.map (·.key)) s evs → s.readers[j]? = some sl → Pending sp.key s.tree sl.r pend mc →
+    pend.length + mc < rdCount j evs → ∃ sl', (s.run evs).readers[j]? = some sl' ∧ sl'.eof = true := by
+  have hkeys : sp.key ∈ specs.map (·.key) := List.mem_map.2 ⟨sp, List.mem_of_getElem? hsp, rfl⟩
+  intro evs
+  induction evs with
+  | nil => intro s sl pend mc _ _ _ h; simp [rdCount] at h
+  | cons e es ih =>
+    intro s sl pend mc hv hj hp hcnt
+    obtain ⟨hv1, hv2⟩ := hv
+    cases e with
+    | env t' =>
+      exact ih _ sl pend mc hv2 hj (pending_congr (hv1 sp.key hkeys) hp) (by simpa [rdCount] using hcnt)
+    | rd j' n =>
+      have hn : 0 < n := hv1
+      show ∃ sl', (Sess.run (s.evWith locateR (.rd j' n)) es).readers[j]? = some sl' ∧ sl'.eof = true
+      have hv2' : ValidEvs (specs.map (·.key)) (s.evWith locateR (.rd j' n)) es := hv2
+      revert hv2'
+      unfold Sess.evWith Sess.rdWith
+      simp only
+      cases hj' : s.readers[j']? with
+      | none =>
+        intro hv2'
+        have hne : j' ≠ j := by intro h; rw [h, hj] at hj'; cases hj'
+        exact ih s sl pend mc hv2' hj hp (by simpa [rdCount, hne] using hcnt)
+      | some sl0 =>
+        simp only
+        have hlt : j' < s.readers.length := by
+          rcases List.getElem?_eq_some_iff.1 hj' with ⟨h, _⟩; exact h
+        have hrw : Reader.readWith locateR true s.tree sl0.r n = Reader.read true s.tree sl0.r n := rfl
+        rw [hrw]
+        have hitems := read_items s.tree sl0.r n
+        by_cases hjj : j' = j
+        · subst hjj
+          rw [hj] at hj'; cases hj'
+          have hstep := read_step sp.key s.tree sl.r pend mc n hp hn
+          rcases hread : Reader.read true s.tree sl.r n with ⟨t', r', res⟩
+          rw [hread] at hstep
+          cases res with
+          | eof =>
+            intro _
+            exact run_eof_mono es _ j' _ (List.getElem?_set_self hlt) rfl
+          | data out =>
+            simp only at hstep ⊢
+            obtain ⟨pend', mc', _, hp', hlt'⟩ := hstep
+            intro hv2'
+            refine ih _ _ pend' mc' hv2' (List.getElem?_set_self hlt) hp' ?_
+            simp only [rdCount, ↓reduceIte] at hcnt
+            omega
+        · rcases hread : Reader.read true s.tree sl0.r n with ⟨t', r', res⟩
+          rw [hread] at hitems
+          simp only at hitems
+          have hp' : Pending sp.key t' sl.r pend mc := pending_congr (fun i => by rw [hitems]) hp
+          have hcnt' : pend.length + mc < rdCount j es := by simpa [rdCount, hjj] using hcnt
+          cases res with
+          | eof =>
+            intro hv2'
+            exact ih _ sl pend mc hv2' (by simp only [List.getElem?_set_ne hjj]; exact hj) hp' hcnt'
+          | data out =>
+            intro hv2'
+            exact ih _ sl pend mc hv2' (by simp only [List.getElem?_set_ne hjj]; exact hj) hp' hcnt'
+
+/-- **C31_interleaved_readers_eof.** In the setting of `C31_interleaved_readers`: a reader that is given
+more than `bytes + chunks` `Read` calls in the history — however they are interleaved with everything
+else — has reported EOF (and therefore, by `C31_interleaved_readers`, delivered exactly its entry). -/
+theorem C31_interleaved_readers_eof (t : Tree) (specs : List Spec) (ws : List Writer) (evs : List Ev)
+    (hst : ∀ sp ∈ specs, Holds t.items sp.key sp.start sp.chunks)
+    (hv : ValidEvs (specs.map (·.key)) (initSess t specs ws) evs)
+    (j : Nat) (sp : Spec) (hsp : specs[j]? = some sp)
+    (hmany : sp.chunks.flatten.length + sp.chunks.length < rdCount j evs) :
+    ∃ sl, ((initSess t specs ws).run evs).readers[j]? = some sl ∧ sl.eof = true ∧ sl.got = sp.chunks.flatten := by
+  have hmem := List.mem_of_getElem? hsp
+  have hj : (initSess t specs ws).readers[j]? = some ⟨Reader.new sp.key sp.start, [], false⟩ := by
+    simp [initSess, List.getElem?_map, hsp]
+  have hp : Pending sp.key (initSess t specs ws).tree (Reader.new sp.key sp.start) sp.chunks.flatten sp.chunks.length :=
+    ⟨rfl, sp.chunks, rfl, Or.inl ⟨rfl, hst sp hmem, rfl⟩⟩
+  obtain ⟨sl, h1, h2⟩ := run_eof specs j sp hsp evs _ _ _ _ hv hj hp hmany
+  exact ⟨sl, h1, h2, ((C31_interleaved_readers t specs ws evs hst hv).2 j sp sl hsp h1).2 h2⟩
+
+/-- the hypotheses of `C31_interleaved_readers` are satisfiable by a non-trivial session: two readers on
+two entries (one under the zero key), lockstep, with the cursor deselected in between -/
+example :
+    let t : Tree := ⟨[(⟨0, 0⟩, [10]), (⟨0, 1⟩, [11]), (⟨2, 0⟩, [20]), (⟨2, 1⟩, [21]), (⟨3, 0⟩, [30])], none⟩
+    let specs : List Spec := [⟨0, 0, [[10], [11]]⟩, ⟨2, 0, [[20], [21]]⟩]
+    (∀ sp ∈ specs, Holds t.items sp.key sp.start sp.chunks) ∧
+    ValidEvs (specs.map (·.key)) (initSess t specs []) [.rd 0 8, .rd 1 8, .env { t with cur := none }, .rd 0 8] := by
+  refine ⟨?_, ?_⟩
+  · intro sp hsp
+    simp only [List.mem_cons, List.not_mem_nil, or_false] at hsp
+    rcases hsp with rfl | rfl <;> simp [Holds, lookup]
+  · simp only [ValidEvs, EvOk]
+    exact ⟨by decide, by decide, fun k _ i => rfl, by decide, trivial⟩
+
+/-- the readers' results in slot order -/
+def results (s : Sess) : List (List Nat × Bool) := s.readers.map fun sl => (sl.got, sl.eof)
+
+/-- two entries of two chunks each, one reader on each, nothing selected -/
+def twoEntries : Sess :=
+  ⟨⟨[(⟨1, 0⟩, [10]), (⟨1, 1⟩, [11]), (⟨2, 0⟩, [20]), (⟨2, 1⟩, [21])], none⟩,
+   [⟨Reader.new 1 0, [], false⟩, ⟨Reader.new 2 0, [], false⟩], []⟩
+
+/-- **Why a shortcut without a fallback must compare the full key (the reader BEFORE fix 7fc80460).**
+With the shortcut test weakened to the chunk index alone and no fallback (`locateIdxOnly`), two readers
+advanced in lockstep over two entries: reader 0 delivers chunk 0 of entry 1, reader 1 chunk 0 of entry 2
+(cursor now on (2,0)), and reader 0, wanting chunk 1 with the cursor on index 0, steps with `Next` onto
+(2,1), sees a foreign key and reports EOF: entry 1 is truncated to 1 of its 2 chunks. The pre-fix code's
+full-key comparison (`locate`) returns both entries whole on the same history — and so does the code as
+it stands (`locateR`), and even the position-only test once the shortcut falls back to `Find`
+(`locateIdxOnlyR`): with the fallback the test before the shortcut is purely an optimisation. -/
+theorem C31_index_only_fastpath_truncates :
+    results (twoEntries.runWith locateIdxOnly [.rd 0 8, .rd 1 8, .rd 0 8, .rd 1 8, .rd 1 8]) =
+      [([10], true), ([20, 21], true)] ∧
+    results (twoEntries.runWith locate [.rd 0 8, .rd 1 8, .rd 0 8, .rd 1 8, .rd 0 8, .rd 1 8]) =
+      [([10, 11], true), ([20, 21], true)] ∧
+    results (twoEntries.run [.rd 0 8, .rd 1 8, .rd 0 8, .rd 1 8, .rd 0 8, .rd 1 8]) =
+      [([10, 11], true), ([20, 21], true)] ∧
+    results (twoEntries.runWith locateIdxOnlyR [.rd 0 8, .rd 1 8, .rd 0 8, .rd 1 8, .rd 0 8, .rd 1 8]) =
+      [([10, 11], true), ([20, 21], true)] := by
+  decide +kernel
+
+/-- **The zero key before fix 7fc80460 (finding C31-F3, fixed).** Entry 0 has two chunks, entry 5 one;
+reader 0 delivers chunk 0 of entry 0; reader 1 reads entry 5 to its end — its last `Next` runs off the
+end of the store and leaves NOTHING selected; `GetCurrentKey` then answers the zero key (0,0), which
+reader 0 (wanting (0,1)) takes for "the cursor is on my previous chunk". Without the fallback (`locate`)
+the failed `Next` is reported as EOF after 1 of 2 chunks; the code as it stands (`locateR`) falls back
+to `Find` and delivers the whole entry (which `C31_interleaved_readers` proves for every history). -/
+theorem C31_zero_key_before_fix_truncates :
+    let s0 : Sess := ⟨⟨[(⟨0, 0⟩, [10]), (⟨0, 1⟩, [11]), (⟨5, 0⟩, [50])], none⟩,
+      [⟨Reader.new 0 0, [], false⟩, ⟨Reader.new 5 0, [], false⟩], []⟩
+    results (s0.runWith locate [.rd 0 8, .rd 1 8, .rd 1 8, .rd 0 8]) = [([10], true), ([50], true)] ∧
+    results (s0.run [.rd 0 8, .rd 1 8, .rd 1 8, .rd 0 8, .rd 0 8]) = [([10, 11], true), ([50], true)] := by
+  decide +kernel
 
 end Sop.C31
